@@ -54,7 +54,127 @@ func (c *Ctx) switchCoverage(pk *pkgT, sw *ast.SwitchStmt) (typ *types.Named, mi
 			missing = append(missing, k.Name())
 		}
 	}
+	if len(missing) > 0 {
+		// the tag may be a parameter whose callers have narrowed it with a predicate of
+		// the enumeration (`if e.IsEnding() { ... f(e) }`): only the values the predicate
+		// admits can arrive
+		if possible, ok := c.narrowedByCallers(pk, sw, named, declPk); ok {
+			var still []string
+			for _, k := range consts {
+				if !covered[k.Val().ExactString()] && possible[k.Val().ExactString()] {
+					still = append(still, k.Name())
+				}
+			}
+			missing = still
+		}
+	}
 	return named, missing, len(consts), true
+}
+
+// narrowedByCallers: the switch tag is an unmodified parameter of the enclosing function and
+// every static caller reaches its call only where a bool method of the enumeration type was
+// found true for the argument; the result is the union of those methods' true-sets.
+func (c *Ctx) narrowedByCallers(pk *pkgT, sw *ast.SwitchStmt, named *types.Named, declPk *pkgT) (map[string]bool, bool) {
+	info := pk.TypesInfo
+	id, ok := ast.Unparen(sw.Tag).(*ast.Ident)
+	if !ok {
+		return nil, false
+	}
+	obj := info.ObjectOf(id)
+	var encl *ast.FuncDecl
+	c.P.Funcs(func(p *pkgT, fd *ast.FuncDecl) {
+		if p == pk && fd.Pos() <= sw.Pos() && sw.End() <= fd.End() {
+			encl = fd
+		}
+	})
+	if encl == nil {
+		return nil, false
+	}
+	pidx := paramIndexOf(info, encl, obj)
+	if pidx < 0 || assignedAnywhere(info, encl.Body, obj) {
+		return nil, false
+	}
+	self, _ := info.Defs[encl.Name].(*types.Func)
+	if self == nil || c.usedAsValue(self) {
+		return nil, false
+	}
+	sites := c.callSitesOf(self)
+	if len(sites) == 0 {
+		return nil, false
+	}
+	possible := map[string]bool{}
+	for _, cs := range sites {
+		if pidx >= len(cs.Call.Args) {
+			return nil, false
+		}
+		cinfo := cs.Pk.TypesInfo
+		cf := c.CFG(cs.Pk, cs.Body)
+		arg := cs.Call.Args[pidx]
+		narrowed := false
+		for _, fa := range cf.FactsAt(cs.Call) {
+			call, ok := ast.Unparen(fa.Expr).(*ast.CallExpr)
+			if !ok || !fa.Truth || len(call.Args) != 0 {
+				continue
+			}
+			g := Callee(cinfo, call)
+			if g == nil || recvNamedOf(g) != named || !cf.SameResolved(Recv(call), arg) {
+				continue
+			}
+			gd := c.P.Decl(g)
+			if gd == nil {
+				continue
+			}
+			set, ok := enumPredTrueSet(declPk.TypesInfo, gd)
+			if !ok {
+				continue
+			}
+			for k := range set {
+				possible[k] = true
+			}
+			narrowed = true
+			break
+		}
+		if !narrowed {
+			return nil, false
+		}
+	}
+	return possible, true
+}
+
+// enumPredTrueSet: the constants for which a predicate `switch e { case A, B: return true };
+// return false` answers true (by exact constant value).
+func enumPredTrueSet(info *types.Info, fd *ast.FuncDecl) (map[string]bool, bool) {
+	out := map[string]bool{}
+	okShape := false
+	for _, st := range fd.Body.List {
+		sw, ok := st.(*ast.SwitchStmt)
+		if !ok || sw.Tag == nil {
+			continue
+		}
+		for _, cl := range sw.Body.List {
+			cc := cl.(*ast.CaseClause)
+			if len(cc.Body) != 1 {
+				continue
+			}
+			ret, ok := cc.Body[0].(*ast.ReturnStmt)
+			if !ok || len(ret.Results) != 1 {
+				continue
+			}
+			tv, has := info.Types[ret.Results[0]]
+			if !has || tv.Value == nil {
+				return nil, false
+			}
+			if tv.Value.String() == "true" {
+				for _, e := range cc.List {
+					if etv, has := info.Types[e]; has && etv.Value != nil {
+						out[etv.Value.ExactString()] = true
+						okShape = true
+					}
+				}
+			}
+		}
+	}
+	return out, okShape
 }
 
 func hasPanic(info *types.Info, n ast.Node) bool {
